@@ -22,6 +22,16 @@ impl InMessage {
         ::tungstenite::Message::from(::serde_json::to_string(&self).unwrap())
     }
 
+    fn from_json_bytes(bytes: &mut [u8]) -> ::anyhow::Result<Self> {
+        use crate::common::{json_nesting_exceeds, MAX_JSON_NESTING};
+
+        if json_nesting_exceeds(bytes, MAX_JSON_NESTING) {
+            return Err(anyhow::anyhow!("JSON nested too deeply"));
+        }
+
+        ::simd_json::serde::from_slice(bytes).context("deserialize with serde")
+    }
+
     #[inline]
     pub fn from_ws_message(ws_message: tungstenite::Message) -> ::anyhow::Result<Self> {
         use tungstenite::Message;
@@ -30,12 +40,12 @@ impl InMessage {
             Message::Text(text) => {
                 let mut text: Vec<u8> = text.as_bytes().to_owned();
 
-                ::simd_json::serde::from_slice(&mut text).context("deserialize with serde")
+                Self::from_json_bytes(&mut text)
             }
             Message::Binary(bytes) => {
                 let mut bytes = bytes.to_vec();
 
-                ::simd_json::serde::from_slice(&mut bytes[..]).context("deserialize with serde")
+                Self::from_json_bytes(&mut bytes[..])
             }
             _ => Err(anyhow::anyhow!("Message is neither text nor binary")),
         }
